@@ -1,0 +1,12 @@
+//go:build verif
+
+package netty
+
+// Verification-only hooks (build tag `verif`). Nothing here is compiled into
+// a normal build; see verif_off.go for the no-op counterparts of the call
+// sites.
+
+// VerifAttach binds a channel to a pipeline without starting the read loop,
+// so that a harness can drive writes and events through a real channel over a
+// mock transport.
+func VerifAttach(pl Pipeline, ch Channel) { pl.(*pipeline).channel = ch }
